@@ -95,7 +95,7 @@ func genCase(prop string) func(t *rapid.T) mcase {
 		c.Dir = rapid.IntRange(0, 1).Draw(t, "dir")
 		c.Asym = rapid.SampledFrom([]int{0, 1, 1, 2, 2}).Draw(t, "asym")
 		v2 := c.Kind >= 2
-		n := rapid.IntRange(4, 6).Draw(t, "npk")
+		n := rapid.IntRange(5, 7).Draw(t, "npk")
 		for j := 0; j < n; j++ {
 			sp := pspec{}
 			np := 1
@@ -145,7 +145,7 @@ func genCase(prop string) func(t *rapid.T) mcase {
 			})
 		}
 		cat := catalogue(prop, c.Kind)
-		nt := rapid.IntRange(1, 3).Draw(t, "ntrials")
+		nt := rapid.IntRange(1, 4).Draw(t, "ntrials")
 		for i := 0; i < nt; i++ {
 			tr := trial{Pick: rapid.IntRange(0, 5).Draw(t, "pick"), Sig: rapid.IntRange(0, 2).Draw(t, "sig")}
 			nm := rapid.IntRange(1, 3).Draw(t, "nmuts")
